@@ -7,6 +7,9 @@ import os, re, sys
 ROOT = os.path.dirname(os.path.dirname(os.path.abspath(__file__)))
 REPO = os.environ.get("VERIF_REPO", "/repo")
 OUT = os.path.join(ROOT, "coq", "Generated", "C28Facts.v")
+# last good translation (committed): used when the translation fails, so that the check can go on
+# with the model of the last known code and search for a failing input on the VM
+SNAPSHOT = os.path.join(ROOT, "tools", "c28_facts_snapshot.v")
 STD = "sway-lib-std/src/storage/"
 
 
@@ -201,8 +204,21 @@ def generate(write=True):
         os.makedirs(os.path.dirname(OUT), exist_ok=True)
         if not (os.path.exists(OUT) and open(OUT, encoding="utf-8").read() == text):
             open(OUT, "w", encoding="utf-8").write(text)
+        if REPO == "/repo" and not (os.path.exists(SNAPSHOT) and open(SNAPSHOT, encoding="utf-8").read() == text):
+            open(SNAPSHOT, "w", encoding="utf-8").write(text)
     f["text"] = text
     return f
+
+
+def use_snapshot():
+    """install the last good facts file; returns its text (raises FactsError if there is none)."""
+    if not os.path.exists(SNAPSHOT):
+        raise FactsError("no snapshot of a previous successful translation (%s)" % SNAPSHOT)
+    text = open(SNAPSHOT, encoding="utf-8").read()
+    os.makedirs(os.path.dirname(OUT), exist_ok=True)
+    if not (os.path.exists(OUT) and open(OUT, encoding="utf-8").read() == text):
+        open(OUT, "w", encoding="utf-8").write(text)
+    return text
 
 
 if __name__ == "__main__":
